@@ -13,3 +13,20 @@ func c12alterNative(issued string, mask []byte) []byte {
 	}
 	return []byte(base64.RawURLEncoding.EncodeToString(raw))
 }
+
+// c12spliceNative builds a key string from whole 8-byte cipher blocks of two real key strings.
+func c12spliceNative(issued [2]string, sel [3]int) []byte {
+	var raw [2][]byte
+	for k := range raw {
+		r, err := base64.RawURLEncoding.DecodeString(issued[k])
+		if err != nil || len(r) != 24 {
+			return []byte(issued[0])
+		}
+		raw[k] = r
+	}
+	out := make([]byte, 24)
+	for i := 0; i < 3; i++ {
+		copy(out[8*i:8*i+8], raw[sel[i]][8*i:8*i+8])
+	}
+	return []byte(base64.RawURLEncoding.EncodeToString(out))
+}
